@@ -125,6 +125,93 @@ Definition transition (n : node) (term : bool) (s : source) (ending : option Z) 
   let inp := if limited then None else peek s in
   choose (n_trans n) inp.
 
+(* a way to run one state (by id) of the graph under a fixed `ending`: the recursive call of the interpreter *)
+Definition runner := nat -> source -> data -> result.
+
+(* state.accepts + state.process *)
+Definition process (n : node) (s : source) (d : data) : option (source * data) :=
+  match n_proc n with
+  | PNone => Some (s, d)
+  | PInput k => match avail s with
+                | [] => None
+                | c :: r => Some (Src r (sent s + 1), match k with Some key => dappend key c d | None => d end)
+                end
+  | PDrop => match avail s with [] => None | c :: r => Some (Src r (sent s + 1), d) end
+  end.
+
+(* one initial-->terminal cycle of a dfa's sub-machine: follow the yielded targets until the sub-machine yields a
+   non-transition (done), or the same (target, next symbol, sent) recurs (stasis) *)
+Inductive cyc := CFail (c : Z) | CDone (s : source) (d : data) | CStasis (s : source) (d : data).
+
+Fixpoint cycle_once (rec : runner) (h : nat) (cur : nat) (s : source) (d : data) (seen : list crumb) : cyc :=
+  match h with
+  | O => CFail 9
+  | S h' =>
+    match rec cur s d with
+    | RFail c => CFail c
+    | ROk s' d' y t =>
+      match y with
+      | Some (Some tgt) =>
+          let c := (Some tgt, peek s', sent s') in
+          if seen_in c seen then (if t then CStasis s' d' else CFail 2)
+          else cycle_once rec h' tgt s' d' (c :: seen)
+      | _ => if t then CDone s' d' else CFail 2
+      end
+    end
+  end.
+
+Definition first_crumb (init : nat) (s : source) : list crumb := [(Some init, peek s, sent s)].
+
+(* dfa_base.delegate's while self.loop() and not stasis; the flag of the result is "sub-machine terminal and all
+   cycles done" *)
+Fixpoint cycles_loop (rec : runner) (h : nat) (init : nat) (final : Z) (g : nat) (cycle : Z)
+                     (s : source) (d : data) (cur_term : bool) : result :=
+  match g with
+  | O => RFail 9
+  | S g' =>
+    if final <=? cycle then ROk s d None cur_term
+    else match cycle_once rec h init s d (first_crumb init s) with
+         | CFail c => RFail c
+         | CDone s' d' => cycles_loop rec h init final g' (cycle + 1) s' d' true
+         | CStasis s' d' => ROk s' d' None (final <=? cycle + 1)
+         end
+  end.
+
+(* .terminal of the initial state before any cycle has run: a dfa that has not run its own cycles is not terminal
+   (freshly constructed machine; cpppo keeps cycle/final from a previous run, see DESIGN.md) *)
+Definition init_term (m : machine) (init : nat) : bool :=
+  match nth_error m init with
+  | Some i => n_term i && match n_sub i with None => true | Some _ => false end
+  | None => false
+  end.
+
+Definition delegate (rec : runner) (f : nat) (m : machine) (n : node) (s : source) (d : data) : result :=
+  match n_sub n with
+  | None => ROk s d None (n_term n)
+  | Some (init, rep) =>
+    match resolve_lim rep d with
+    | None => RFail 4
+    | Some r =>
+      let final := match r with None => 1 | Some z => z end in
+      match cycles_loop rec f init final f 0 s d (init_term m init) with
+      | RFail c => RFail c
+      | ROk s' d' _ t => ROk s' d' None (n_term n && t)
+      end
+    end
+  end.
+
+(* terminate, our own transition, and the post-run assertion sent <= ending *)
+Definition finish (n : node) (ending1 : option Z) (s2 : source) (d2 : data) (term : bool) : result :=
+  match (match n_struct n with Some st => struct_decode d2 st | None => Some d2 end) with
+  | None => RFail 4
+  | Some d3 =>
+    let y := transition n term s2 ending1 in
+    match ending1 with
+    | Some e => if e <? sent s2 then RFail 3 else ROk s2 d3 y term
+    | None => ROk s2 d3 y term
+    end
+  end.
+
 Fixpoint run_state (fuel : nat) (m : machine) (id : nat) (s : source) (d : data) (ending : option Z) : result :=
   match fuel with
   | O => RFail 9
@@ -132,74 +219,16 @@ Fixpoint run_state (fuel : nat) (m : machine) (id : nat) (s : source) (d : data)
     match nth_error m id with
     | None => RFail 4
     | Some n =>
-      (* accept + process *)
-      let step :=
-        match n_proc n with
-        | PNone => Some (s, d)
-        | PInput k => match avail s with
-                      | [] => None
-                      | c :: r => Some (Src r (sent s + 1), match k with Some key => dappend key c d | None => d end)
-                      end
-        | PDrop => match avail s with [] => None | c :: r => Some (Src r (sent s + 1), d) end
-        end in
-      match step with
+      match process n s d with
       | None => RFail 1                                   (* no acceptable symbol will ever arrive *)
       | Some (s1, d1) =>
         match resolve_lim (n_limit n) d1 with
         | None => RFail 4
         | Some lm =>
           let ending1 := min_ending ending (sent s1) lm in
-          (* delegate *)
-          let sub :=
-            match n_sub n with
-            | None => ROk s1 d1 None (n_term n)
-            | Some (init, rep) =>
-              match resolve_lim rep d1 with
-              | None => RFail 4
-              | Some r =>
-                let final := match r with None => 1 | Some z => z end in
-                (fix cycles (g : nat) (cycle : Z) (s : source) (d : data) (cur_term : bool) : result :=
-                   match g with
-                   | O => RFail 9
-                   | S g' =>
-                     if final <=? cycle then ROk s d None (n_term n && cur_term)
-                     else
-                       (* one cycle from the initial state *)
-                       (fix inner (h : nat) (cur : nat) (s : source) (d : data) (seen : list crumb) : result :=
-                          match h with
-                          | O => RFail 9
-                          | S h' =>
-                            match run_state f m cur s d ending1 with
-                            | RFail c => RFail c
-                            | ROk s' d' y t =>
-                              match y with
-                              | Some (Some tgt) =>
-                                  let c := (Some tgt, peek s', sent s') in
-                                  if seen_in c seen then
-                                    (* stasis: all cycles end here; current stays `cur` *)
-                                    if t then ROk s' d' None (n_term n && (final <=? cycle + 1)) else RFail 2
-                                  else inner h' tgt s' d' (c :: seen)
-                              | _ =>
-                                  if t then cycles g' (cycle + 1) s' d' true else RFail 2
-                              end
-                            end
-                          end) f init s d [(Some init, peek s, sent s)]
-                   end) f 0 s1 d1 (match nth_error m init with Some i => n_term i | None => false end)
-              end
-            end in
-          match sub with
+          match delegate (fun cur s' d' => run_state f m cur s' d' ending1) f m n s1 d1 with
           | RFail c => RFail c
-          | ROk s2 d2 _ term =>
-            (* terminate *)
-            match (match n_struct n with Some st => struct_decode d2 st | None => Some d2 end) with
-            | None => RFail 4
-            | Some d3 =>
-              let y := transition n term s2 ending1 in
-              match ending1 with
-              | Some e => if e <? sent s2 then RFail 3 else ROk s2 d3 y term
-              | None => ROk s2 d3 y term
-              end
-            end
+          | ROk s2 d2 _ term => finish n ending1 s2 d2 term
           end
         end
       end
